@@ -145,6 +145,7 @@ func runCfCase(c CfCase, tag string) (string, map[string]int) {
 		payload := bytes.Repeat([]byte(`{"k":"vvvvvvvvvvvvvvvv"},`), 200)
 		be := httptest.NewServer(http.HandlerFunc(func(w http.ResponseWriter, r *http.Request) {
 			w.Header().Set("Content-Type", "application/json")
+			w.Header().Set("Content-Length", fmt.Sprint(len(payload))) // declared length: the proxy does not flush, gzip may compress
 			w.Write(payload)
 		}))
 		run := parsed
@@ -184,11 +185,19 @@ func runCfCase(c CfCase, tag string) (string, map[string]int) {
 					stats["serve_error"]++
 					continue
 				}
-				body, _ := io.ReadAll(resp.Body)
+				body, rerr := io.ReadAll(resp.Body)
 				resp.Body.Close()
-				// configured plugins may legitimately answer 401 (another API key) or cut / refuse a body (size_limit)
+				hasLimit := false
+				for _, p := range run.Plugins.Chain {
+					if p.Name == "size_limit" {
+						hasLimit = true
+					}
+				}
+				// configured plugins may legitimately answer 401 (another API key) or refuse / cut a body (size_limit); otherwise
+				// the whole payload must arrive, as sent or as gzip that decodes to it
 				ok := resp.StatusCode == 401 || resp.StatusCode == 413 ||
-					(resp.StatusCode == 200 && (bytes.HasPrefix(payload, body) || (resp.Header.Get("Content-Encoding") == "gzip" && gunzipOK(body, payload))))
+					(resp.StatusCode == 200 && rerr == nil && (bytes.Equal(payload, body) || (resp.Header.Get("Content-Encoding") == "gzip" && gunzipOK(body, payload)))) ||
+					(resp.StatusCode == 200 && hasLimit && bytes.HasPrefix(payload, body))
 				if !ok {
 					served = 0
 					stats[fmt.Sprintf("serve_status_%d", resp.StatusCode)]++
@@ -356,6 +365,9 @@ func TestConfig(t *testing.T) {
 	idx := 0
 	emit := func(kind string, c CfCase) {
 		if Mine(idx) {
+			if pre, err := json.Marshal(c); err == nil {
+				cw.Begin(idx, kind, pre)
+			}
 			coq, stats := runCfCase(c, fmt.Sprint(idx))
 			repl, _ := json.Marshal(c)
 			cw.Put(Case{Idx: idx, Kind: kind, Coq: coq, Repl: repl, Stats: stats})
@@ -375,6 +387,18 @@ func TestConfig(t *testing.T) {
 	}
 	for _, c := range docCases() {
 		emit("corpus", c)
+	}
+	// every documented gzip level, as YAML integer and float, on the real binary with a request that gets compressed
+	for lv := -1; lv <= 9; lv++ {
+		cfg := baseConfig()
+		var level interface{} = lv
+		if lv%2 == 0 {
+			level = float64(lv)
+		}
+		cfg.Plugins = config.PluginsConfig{Enabled: true, Chain: []config.PluginConfig{{Name: "gzip", Config: map[string]interface{}{
+			"level": level, "min_size": 64, "content_types": []interface{}{"application/json"}}}}}
+		y, _ := yaml.Marshal(cfg)
+		emit("corpus", CfCase{Kind: "struct", YAML: string(y), Proc: true})
 	}
 	n, nproc := 1500, 32
 	if Tier() == "thorough" {
